@@ -163,3 +163,17 @@ func (lsm *LSM) VerifAgeTables(d time.Duration) {
 		lh.Unlock()
 	}
 }
+
+// VerifLevelTargets reports the level sizes the planner sees, the options it
+// passes to compact.BuildTargets, and the targets it derives from them.
+func (lsm *LSM) VerifLevelTargets() ([]int64, compact.TargetOptions, compact.Targets) {
+	lm := lsm.levels
+	opt := compact.TargetOptions{
+		BaseLevelSize:       lm.opt.BaseLevelSize,
+		LevelSizeMultiplier: lm.opt.LevelSizeMultiplier,
+		BaseTableSize:       lm.opt.BaseTableSize,
+		TableSizeMultiplier: lm.opt.TableSizeMultiplier,
+		MemTableSize:        lm.opt.MemTableSize,
+	}
+	return lm.levelSizes(), opt, lm.levelTargets()
+}
